@@ -4,6 +4,7 @@
 :Functions: valid_boundary
 """
 
+import codecs
 import re
 import tempfile
 import urllib.parse
@@ -473,6 +474,8 @@ class FieldStorageParser:
         self.bytes_read = 0
         self.done = 0
         self.filename = None
+        # lines are cut by size, so character can be divided to two lines
+        self._decoder = codecs.getincrementaldecoder(encoding)(errors)
         self.innerboundary = b""
         self.length = -1
 
@@ -681,6 +684,8 @@ class FieldStorageParser:
             file = self.read_lines_to_outerboundary(file)
         else:
             file = self.read_lines_to_eof(file)
+        if not self.filename:
+            file.write(self._decoder.decode(b'', True))  # flush decoder
         return file
 
     def _write(self, line, file):
@@ -694,7 +699,7 @@ class FieldStorageParser:
             file.write(line)  # binary file (bytes)
         else:
             # decode to string
-            file.write(line.decode(self.encoding, self.errors))
+            file.write(self._decoder.decode(line))
         return file
 
     def read_lines_to_eof(self, file):
